@@ -21,6 +21,19 @@ func (u *URL) formatLocal() string {
 	return u.Path
 }
 
+// pathBeginsLikePort returns whether or not a path begins with a (potentially
+// empty) sequence of digits followed by a colon, i.e. with something that SCP-
+// style SSH URL parsing would treat as a port specification.
+func pathBeginsLikePort(path string) bool {
+	for _, r := range path {
+		if '0' <= r && r <= '9' {
+			continue
+		}
+		return r == ':'
+	}
+	return false
+}
+
 // formatSSH formats an SSH URL into an SCP-style URL.
 func (u *URL) formatSSH() string {
 	// Create the base result.
@@ -31,8 +44,12 @@ func (u *URL) formatSSH() string {
 		result = fmt.Sprintf("%s@%s", u.User, result)
 	}
 
-	// Add port if present.
-	if u.Port != 0 {
+	// Add port if present. A zero (i.e. unspecified) port is normally omitted,
+	// but if the path itself begins with something that the parser would read
+	// as a port specification (a (potentially empty) digit sequence followed by
+	// a colon), then we have to include the port explicitly, otherwise the
+	// formatted URL would be parsed with part of the path as its port.
+	if u.Port != 0 || pathBeginsLikePort(u.Path) {
 		result = fmt.Sprintf("%s:%d", result, u.Port)
 	}
 
